@@ -133,7 +133,7 @@ def _apply_stmts(fn, blk, env):
             env[dl] = val
 
 
-def analyse(fn, load_blocks=None, domain=(), max_states=300000, avoid=(), start=0, marks=()):
+def analyse(fn, load_blocks=None, domain=(), max_states=300000, avoid=(), start=0, marks=(), init=None):
     """load_blocks: {block: dest_local} for calls that load a state word forked over `domain`.
     Returns {block: set(frozenset(env.items()))} — environments at block *entry* (avoid blocks are
     entered but not left)."""
@@ -141,7 +141,7 @@ def analyse(fn, load_blocks=None, domain=(), max_states=300000, avoid=(), start=
     load_blocks = load_blocks or {}
     avoid = set(avoid)
     at = {b: set() for b in range(fn.n)}
-    start_env = frozenset()
+    start_env = frozenset((init or {}).items())     # assumptions holding at the entry of `start`
     at[start].add(start_env)
     work = deque([(start, start_env)])
     nstates = 1
@@ -281,12 +281,20 @@ def must_pass_ps(fn, through, targets, start=0):
     return not any(at[b] for b in tg)
 
 
-def reachable_ps(fn, start, avoid=()):
+def reachable_ps(fn, start, avoid=(), init=None):
     try:
-        at = analyse(fn, avoid=avoid, start=start)
+        at = analyse(fn, avoid=avoid, start=start, init=init)
     except RuntimeError:
         return fn.reachable_from([start], avoid=avoid)
     return {b for b in at if at[b]}
+
+
+def reachable_if_result(fn, call_event, value, avoid=()):
+    """Blocks reachable after `call_event` returned, on the assumption that its (bool / small int) result is `value`."""
+    t = fn.term(call_event.block)
+    if t["k"] != "call" or t.get("t") is None or t["d"].get("p"):
+        return fn.reachable_from([call_event.block], avoid=avoid)
+    return reachable_ps(fn, t["t"], avoid=avoid, init={t["d"]["l"]: value})
 
 
 def reaches_after_mark(fn, marks, targets):
